@@ -42,6 +42,27 @@ int main(int argc, char **argv)
 		}
 		printf("C %d 0x%02x\n", cur_task, mframe_task2chan_nr(cur_task, 5));
 	}
+	/* continuous operation: a set of tasks enabled once, then one mframe_schedule() per consecutive frame without
+	 * resetting anything in between (as the L1 does): "W <combination> ..." lines carry the same trigger records */
+	static const uint32_t combos[] = {
+		(1u << MF_TASK_BCCH_NORM) | (1u << MF_TASK_CCCH),
+		(1u << MF_TASK_BCCH_NORM) | (1u << MF_TASK_CCCH_COMB) | (1u << MF_TASK_SDCCH4_0) | (1u << MF_TASK_SDCCH4_3),
+		(1u << MF_TASK_SDCCH8_3) | (1u << MF_TASK_SDCCH8_5) | (1u << MF_TASK_SDCCH8_CBCH),
+		(1u << MF_TASK_TCH_F_EVEN), (1u << MF_TASK_TCH_H_1) | (1u << MF_TASK_NEIGH_PM26O), (1u << MF_TASK_GPRS_PDTCH),
+		0x1fffffffu,
+	};
+	for (unsigned c = 0; c < sizeof(combos) / sizeof(combos[0]); c++) {
+		uint32_t start = 2715648u - 3000u;     /* across the hyperframe wrap */
+		mframe_reset();
+		mframe_set(combos[c]);
+		printf("W %u 0x%08x %u\n", c, combos[c], start);
+		for (uint32_t k = 0; k < cycle + 3000u; k++) {
+			cur_fn = (start + k) % 2715648u;
+			cur_task = -1 - (int)c;            /* trigger lines of this walk carry task = -1 - combination */
+			gsm_fn2gsmtime(&l1s.current_time, cur_fn);
+			mframe_schedule();
+		}
+	}
 	printf("DONE %u\n", cycle);
 	return 0;
 }
